@@ -17,6 +17,27 @@
  * allocating the same memory).
  */
 
+/*
+ * Verification hook (off unless LIBCPERCIVA_VERIF is defined and the code is
+ * built with AddressSanitizer): objects cached in a pool are poisoned, so
+ * that using an object after it was returned to the pool is reported like a
+ * use after free() instead of going unnoticed because the pool still owns
+ * the memory.
+ */
+#ifdef LIBCPERCIVA_VERIF
+#if defined(__SANITIZE_ADDRESS__)
+#define MPOOL_VERIF_ASAN 1
+#elif defined(__has_feature)
+#if __has_feature(address_sanitizer)
+#define MPOOL_VERIF_ASAN 1
+#endif
+#endif
+#endif
+#ifdef MPOOL_VERIF_ASAN
+void __asan_poison_memory_region(void const volatile *, size_t);
+void __asan_unpoison_memory_region(void const volatile *, size_t);
+#endif
+
 /* Internal data. */
 struct mpool {
 	size_t stacklen;
@@ -27,6 +48,9 @@ struct mpool {
 	int state;
 	void ** allocs_static;
 	void (* atexitfunc)(void);
+#ifdef MPOOL_VERIF_ASAN
+	size_t verif_len;
+#endif
 };
 
 static inline void
@@ -45,6 +69,13 @@ mpool_atexit(struct mpool * M)
 static inline void *
 mpool_malloc(struct mpool * M, size_t len)
 {
+
+#ifdef MPOOL_VERIF_ASAN
+	/* The object about to be handed out (if any) is usable again. */
+	M->verif_len = len;
+	if (M->stacklen)
+		__asan_unpoison_memory_region(M->allocs[M->stacklen - 1], len);
+#endif
 
 	/* Count the total number of allocation requests. */
 	M->nallocs++;
@@ -74,6 +105,11 @@ mpool_free(struct mpool * M, void * p)
 	/* Behave consistently with free(NULL). */
 	if (p == NULL)
 		return;
+
+#ifdef MPOOL_VERIF_ASAN
+	/* Nobody may touch this object until it is handed out again. */
+	__asan_poison_memory_region(p, M->verif_len);
+#endif
 
 	/* If we have space in the stack, cache the object. */
 	if (M->stacklen < M->allocsize) {
